@@ -20,7 +20,8 @@ RULE = ("frequency-of-frequency vectors of length 1..8 with entries 0..10^6 (f2 
         "f2(r^2/2 + r^3 + r^4/4), NaN when f2 is zero or absent, no exception), estimate >= S_obs whenever defined; Python set "
         "algebra after NA removal; symmetry, invariance under duplication and reordering. Tolerance 1e-12 relative. "
         "Non-trivial: f1 > 0 and f2 > 0 with r not in {0, 1, 2} (so wrong powers are visible); for overlaps a non-empty "
-        "intersection that is a proper subset of both sets.")
+        "intersection that is a proper subset of both sets."
+        " Symmetry is evaluated on the same two collection objects passed in both orders, and on fresh copies.")
 ASSUMPTIONS = ["NaN is the representation of 'undefined'", "elements are strings or integers (homogeneous per call)"]
 
 
@@ -132,12 +133,17 @@ def check_overlap(case, rec):
         want = Fraction(len(inter))
     else:
         want = Fraction(len(inter), min(len(sa), len(sb)))
-    got = call(fn, f, materialise(A, ha, na), materialise(B, hb, na))
+    # symmetry relates two calls on the caller's SAME two collections: the objects are built once and passed in both orders
+    oa, ob = materialise(A, ha, na), materialise(B, hb, na)
+    got = call(fn, f, oa, ob)
     if not close(got, want, 1e-12):
         raise Violation(fn, f"{fn}({ha} {A}, {hb} {B}) = {got!r}, expected {want}")
-    got_s = call(fn, f, materialise(B, hb, na), materialise(A, ha, na))
+    got_s = call(fn, f, ob, oa)
     if not close(got_s, want, 1e-12):
-        raise Violation(f"{fn}-symmetry", f"{fn}(B, A) = {got_s!r}, expected {want}")
+        raise Violation(f"{fn}-symmetry", f"{fn}(B, A) = {got_s!r} on the same two {hb}/{ha} objects, {fn}(A, B) = {got!r}, expected {want}")
+    got_f = call(fn, f, materialise(B, hb, na), materialise(A, ha, na))
+    if not close(got_f, want, 1e-12):
+        raise Violation(f"{fn}-symmetry", f"{fn}(B, A) = {got_f!r}, expected {want}")
     if ha in ("list", "tuple", "series", "series_nan", "ndarray"):
         dup = list(A) + list(A)[::-1]
         got_d = call(fn, f, materialise(dup, ha, na), materialise(B, hb, na))
